@@ -25,6 +25,7 @@ RULE = (
     "6.5 sigma (variance bounds in props/C11.py) of 1 resp. the source's, confirmed on an independent stream of 4K samples before it counts. "
     "W1 modes: replacement/single_pass/dynamic x None/by_label, smoothing where supported, proportion r in {.1,.34,.5,.9}, sizes 1-40 and "
     "99/100/101/150-400 (asymmetric), easy counts, 4 cfg, ties. Non-trivial: both classes non-empty; distinct = hash of (source, mode, seed)."
+    ' Build-phase additions: exact multinomial variance per stratum on lopsided sources (K=4000), Fraction/Decimal ratios, 64-bit integer scores beyond 2**53, classes on opposite sides of the 100-score switch.'
 )
 ASSUMPTIONS = ["NumPy global RandomState is the only randomness and is seeded per case", "finite scores",
                "statistical clauses: |z| > 6.5 twice (independent streams) is reported; false-alarm probability < 1e-9 per test"]
